@@ -500,6 +500,9 @@ func (w *World) computeAllModSets() {
 						n.callees = append(n.callees, callee)
 						continue
 					}
+					if readOnlyExternal(callee.String()) {
+						continue
+					}
 					n.local.fams["G<stream>"] = true
 					for _, a := range cc.Args {
 						w.argMod(a.Type(), n.local)
@@ -538,4 +541,20 @@ func (w *World) computeAllModSets() {
 			}
 		}
 	}
+}
+
+// readOnlyExternal: external functions known not to write through their arguments (nor to any stream).
+func readOnlyExternal(name string) bool {
+	for _, p := range []string{"fmt.Errorf", "fmt.Sprintf", "fmt.Sprint", "errors.New", "errors.Is", "strconv.", "math.", "math/bits.", "encoding/hex.",
+		"(encoding/binary.bigEndian).Uint", "(encoding/binary.littleEndian).Uint", "(net.IP).To", "(net.IP).String", "(net.IP).Equal",
+		"(*math/big.Int).IsInt64", "(*math/big.Int).IsUint64", "(*math/big.Int).Int64", "(*math/big.Int).Uint64", "(*math/big.Int).Sign",
+		"(*math/big.Int).String", "(*math/big.Int).Text", "(*math/big.Int).BitLen", "(*math/big.Int).Bytes", "(*math/big.Int).Cmp",
+		"(time.Time).", "(time.Duration).", "time.Unix", "time.Date", "reflect.TypeOf", "(reflect.Value).Kind", "(reflect.Value).Type",
+		"(reflect.Value).Len", "(reflect.Value).IsNil", "(reflect.Value).IsValid", "(reflect.Value).CanSet", "(reflect.Value).Cap",
+		"github.com/rs/zerolog", "hash/crc32.Update", "github.com/pierrec/lz4/v4.CompressBlockBound", "strings."} {
+		if strings.HasPrefix(name, p) {
+			return true
+		}
+	}
+	return false
 }
